@@ -9,11 +9,14 @@ package scen
 // (usersets of non-assignable relations, self-referential usersets, wildcards, malformed users).
 
 import (
+	"fmt"
+	"strings"
+
 	"github.com/openfga/openfga/internal/verifharness/lib/rec"
 )
 
 // C03ShapeCount is the number of distinct shape families of C03Shape.
-const C03ShapeCount = 12
+const C03ShapeCount = 14
 
 // C03Shape returns a scenario built around one documented breaking shape (k in
 // [0, C03ShapeCount); any other k picks at random).  Tuples and request context are generated
@@ -175,7 +178,7 @@ func C03Shape(r *rec.Rand, k int) *Scenario {
 				{Name: "parent", RW: This(), Restr: []Restr{RObj("folder")}},
 				{Name: "viewer", RW: Union(This(), TTU("parent", "viewer")), Restr: []Restr{RSet("folder", "viewer")}},
 			}}}
-	default: // exclusion whose subtract has no path to the user's userset type; object restriction next to usersets
+	case 11: // exclusion whose subtract has no path to the user's userset type; object restriction next to usersets
 		g.s.Shape = "c03-exclusion-subtract-unreachable"
 		g.s.Types = []TypeDef{user, group, {Name: "doc", Rels: []RelDef{
 			{Name: "viewer", RW: This(), Restr: []Restr{RObj("user"), RObj("group"), RSet("group", "member")}},
@@ -183,6 +186,96 @@ func C03Shape(r *rec.Rand, k int) *Scenario {
 			{Name: "allowed", RW: Diff(Comp("viewer"), Comp("blocked"))},
 			{Name: "owner", RW: Inter(This(), Comp("allowed")), Restr: []Restr{RObj("user"), RSet("group", "member")}},
 		}}}
+	case 12: // recursive relation whose recursive edge is accepted BOTH unconditioned and conditioned
+		// (edge conditions [none, c1] in either order), chains of depth 2-4 with the condition met /
+		// not met / not evaluable at every level; userset recursion or TTU recursion
+		g.s.Shape = "c03-recursive-cond"
+		g.cond = []string{"c1"}
+		g.s.Conds = g.cond
+		g.o.MaxObjects = 4
+		chainUser := func(i int) string { return fmt.Sprintf("group:%d#member", i) }
+		chainRel := "member"
+		if r.Chance(1, 3) {
+			g.s.Shape = "c03-recursive-cond-ttu"
+			ps := []Restr{RObj("folder"), RObj("folder").With("c1")}
+			if r.Bool() {
+				ps[0], ps[1] = ps[1], ps[0]
+			}
+			g.s.Types = []TypeDef{user,
+				{Name: "folder", Rels: []RelDef{
+					{Name: "parent", RW: This(), Restr: ps},
+					{Name: "viewer", RW: Union(This(), TTU("parent", "viewer")), Restr: []Restr{RObj("user")}},
+				}},
+				{Name: "doc", Rels: []RelDef{
+					{Name: "parent", RW: This(), Restr: []Restr{RObj("folder")}},
+					{Name: "viewer", RW: TTU("parent", "viewer")},
+				}}}
+			chainUser = func(i int) string { return fmt.Sprintf("folder:%d", i) }
+			chainRel = "parent"
+		} else {
+			ms := []Restr{RObj("user"), RSet("group", "member"), RSet("group", "member").With("c1")}
+			rec.Shuffle(r, ms)
+			g.s.Types = []TypeDef{user,
+				{Name: "group", Rels: []RelDef{{Name: "member", RW: This(), Restr: ms}}},
+				{Name: "doc", Rels: []RelDef{{Name: "viewer", RW: This(), Restr: []Restr{RSet("group", "member"), RObj("user")}}}}}
+		}
+		g.tuples()
+		// force a chain 1 -> 2 -> 3 -> 4 (each link with a random condition state) and users at its end
+		have := map[string]bool{}
+		for _, t := range g.s.Tuples {
+			have[t.Key()] = true
+		}
+		add := func(t Tuple) {
+			if !have[t.Key()] {
+				have[t.Key()] = true
+				g.s.Tuples = append(g.s.Tuples, t)
+			}
+		}
+		ot := "group"
+		if chainRel == "parent" {
+			ot = "folder"
+		}
+		depth := r.Range(2, 4)
+		for i := 1; i < depth; i++ {
+			t := Tuple{Obj: fmt.Sprintf("%s:%d", ot, i), Rel: chainRel, User: chainUser(i + 1)}
+			if r.Chance(2, 3) {
+				t.Cond = "c1"
+				t.Ctx = g.ctxFor("c1")
+			}
+			add(t)
+		}
+		leafRel := "member"
+		if chainRel == "parent" {
+			leafRel = "viewer"
+		}
+		add(Tuple{Obj: fmt.Sprintf("%s:%d", ot, depth), Rel: leafRel, User: "user:" + rec.Pick(r, userIDs)})
+		g.reqctx()
+		return g.s
+	default: // alias_userset next to directly related usersets of OTHER types that share relation names
+		// with the subject's relation (every order of the restriction list)
+		g.s.Shape = "c03-alias-multi"
+		vs := []Restr{RObj("user"), RSet("team", "member"), g.maybeCond(RSet("group", "alias"))}
+		if r.Chance(1, 3) {
+			vs = append(vs, RSet("team", "alias"))
+		}
+		rec.Shuffle(r, vs)
+		es := []Restr{RSet("group", "alias"), RSet("team", "owner")}
+		rec.Shuffle(r, es)
+		g.s.Types = []TypeDef{user,
+			{Name: "team", Rels: []RelDef{
+				{Name: "member", RW: This(), Restr: []Restr{RObj("user")}},
+				{Name: "owner", RW: This(), Restr: []Restr{RObj("user")}},
+				{Name: "alias", RW: Comp("owner")},
+			}},
+			{Name: "group", Rels: []RelDef{
+				{Name: "member", RW: This(), Restr: []Restr{g.maybeCond(RObj("user"))}},
+				{Name: "owner", RW: Comp("member")},
+				{Name: "alias", RW: Comp("member")},
+			}},
+			{Name: "doc", Rels: []RelDef{
+				{Name: "viewer", RW: This(), Restr: vs},
+				{Name: "editor", RW: This(), Restr: es},
+			}}}
 	}
 	g.dropUnusedConds()
 	g.tuples()
@@ -240,6 +333,15 @@ func (s *Scenario) C03Subjects(r *rec.Rand, maxUsersets int) []string {
 	}
 	out = append(out, pri...)
 	out = append(out, sec...)
+	// subjects a shape is about are always asked
+	if strings.HasPrefix(s.Shape, "c03-alias-multi") {
+		for _, c := range []string{"group:1#member", "group:2#member", "team:1#owner", "team:1#member", "group:1#owner"} {
+			if !seen[c] {
+				seen[c] = true
+				out = append(out, c)
+			}
+		}
+	}
 	if r.Chance(1, 6) {
 		bad := []string{"ghost:a", "doc:1#nosuch", "user:a#member", "*", "nocolon", "group:*#member", "group:1#"}
 		out = append(out, rec.Pick(r, bad))
